@@ -45,6 +45,8 @@ def loopCode (codes : List String) (name : String) : Option String :=
 def handleRunLoop (inp impl : Json) : Verdict :=
   if !(isNull (field impl "panic")) then
     { agree := false, holds := false, why := "panic: " ++ str (field impl "panic") } else
+  if bool (field impl "invalid") then
+    { agree := true, holds := true, nontrivial := false, cls := "invalid-input" } else
   let codes := strList (field inp "cases")
   let stop := str (field inp "stop")
   let answered := strList (field impl "answered")
@@ -67,7 +69,10 @@ def handleRunLoop (inp impl : Json) : Verdict :=
               else if answered.contains n then (if right n then .pass else .assertFail) else .noResult
       mark := markOfName n, feedback := false }
   let want := specOk cases 0
-  let clean := stop == "serve" || stop == "exit0" || stop == "blind0"
+  -- a client that has closed its stdout after answering everything still ends cleanly: it exits
+  -- with status 0 when its stdin is closed and the reader sees a plain end of stream
+  let clean := stop == "serve" || stop == "exit0" || stop == "blind0" ||
+    (stop == "closeout" && names.all (fun n => answered.contains n))
   -- implementation's observation
   let iOk := bool (field impl "ok")
   let iTot : Totals := { passed := nat (field impl "passed"), failed := nat (field impl "failed"),
